@@ -511,6 +511,16 @@ func (g *Syn) call(d int) string {
 		g.k("expr:index-list")
 		fun = g.pick("f", "pkg.F") + "[" + g.typ(1) + g.pick("", ", "+g.tname()) + "]"
 	}
+	if g.n(5) == 0 {
+		// arguments one per line, closing parenthesis on its own line
+		g.k("expr:call-multiline")
+		n := g.rng(1, 3)
+		var xs []string
+		for i := 0; i < n; i++ {
+			xs = append(xs, g.expr(d-1))
+		}
+		return fun + "(\n" + strings.Join(xs, ",\n") + ",\n)"
+	}
 	args := g.exprs(0, 3, d-1)
 	if g.n(8) == 0 {
 		g.k("expr:call-ellipsis")
